@@ -63,7 +63,7 @@ func (p c11) RunUnit(idx int, tier string, seed int64, focus map[string]string, 
 			done = true
 		}
 		rep.Mark(idx, sti, -1, -1)
-		p.check(rc, st, rep)
+		p.check(idx, sti, rc, st, rep)
 	}
 }
 
@@ -86,7 +86,7 @@ func isLocalName(a lang.Address) bool {
 	return false
 }
 
-func (p c11) check(rc Recipe, st State, rep *runner.Reporter) {
+func (p c11) check(idx, sti int, rc Recipe, st State, rep *runner.Reporter) {
 	ws, env, _ := buildState(rc, st)
 	if env == nil {
 		return
@@ -146,6 +146,7 @@ func (p c11) check(rc Recipe, st State, rep *runner.Reporter) {
 					continue
 				}
 				q := core.Query{Kind: core.QGotoDef, Path: path, File: or.Filename, Pos: pos}
+				rep.Mark(idx, sti, b, -1)
 				r := env.Run(q)
 				rep.Eval(1)
 				if r.Panic != nil {
@@ -230,7 +231,8 @@ func (p c11) check(rc Recipe, st State, rep *runner.Reporter) {
 						if !ok {
 							continue
 						}
-						fr := env.Run(core.Query{Kind: core.QFindRefs, Path: rt.Path.Path, File: rt.DefRangePtr.Filename, Pos: dpos})
+						rep.Mark(idx, sti, b, db)
+					fr := env.Run(core.Query{Kind: core.QFindRefs, Path: rt.Path.Path, File: rt.DefRangePtr.Filename, Pos: dpos})
 						rep.Eval(1)
 						ros, _ := fr.Value.(decoder.ReferenceOrigins)
 						found := false
@@ -283,7 +285,7 @@ func (p c11) Replay(w *runner.Witness, rep *runner.Reporter) error {
 	if err := json.Unmarshal(w.Unit, &u); err != nil {
 		return err
 	}
-	p.check(u.Recipe, State{u.Path, u.File, u.Mut}, rep)
+	p.check(0, 0, u.Recipe, State{u.Path, u.File, u.Mut}, rep)
 	return nil
 }
 
